@@ -208,9 +208,11 @@ func (s *snapshotSink) done(err error) (snapshotMeta, error) {
 		return s.meta, err
 	}
 	file = metaFile(s.snaps.dir, s.meta.index)
+	verifPoint("snapshot.beforePublish")
 	if err = os.Rename(temp.Name(), file); err != nil {
 		return s.meta, err
 	}
+	verifPoint("snapshot.published")
 	temp = nil
 	s.snaps.mu.Lock()
 	s.snaps.index, s.snaps.term = s.meta.index, s.meta.term
